@@ -99,18 +99,24 @@ def audit(prop_module):
         for i, line in enumerate(strip_comments(open(path).read()).splitlines(), 1):
             if FORBIDDEN.search(line):
                 problems.append(f"forbidden token in {m}:{i}: {line.strip()[:80]}")
+    # property theorems: every theorem stated in the property module and in the RSV.Props.* modules it imports
+    thms = []
+    for m, path in sorted(srcs.items()):
+        if not (m == prop_module or m.startswith("RSV.Props.")):
+            continue
+        src = strip_comments(open(path).read())
+        ns = re.findall(r"^namespace\s+([\w.]+)", src, re.M)
+        prefix = (ns[0] + ".") if ns else ""
+        thms += [prefix + t for t in re.findall(r"^\s*(?:theorem|lemma)\s+([\w.']+)", src, re.M)]
+    prefix = ""
     pfile = srcs[prop_module]
-    src = strip_comments(open(pfile).read())
-    ns = re.findall(r"^namespace\s+([\w.]+)", src, re.M)
-    prefix = (ns[0] + ".") if ns else ""
-    thms = re.findall(r"^\s*(?:theorem|lemma)\s+([\w.']+)", src, re.M)
     if not thms:
         raise CheckBroken(f"no theorems found in {pfile}")
     aud = os.path.join(WORK, f"audit_{prop_module.split('.')[-1]}_{os.getpid()}.lean")
     with open(aud, "w") as f:
         f.write(f"import {prop_module}\n")
         for t in thms:
-            f.write(f"#print axioms {prefix}{t}\n")
+            f.write(f"#print axioms {t}\n")
     rc, out = sh(["lake", "env", "lean", aud], cwd=LEAN, timeout=1800)
     os.remove(aud)
     axioms_seen, discharged = set(), 0
